@@ -124,6 +124,11 @@ func genC19(t *rapid.T) *C19Case {
 		if rapid.Bool().Draw(t, "ownerswap") {
 			a.Labels, b.Labels = b.Labels, a.Labels
 		}
+		if rapid.IntRange(0, 2).Draw(t, "owner2") == 0 {
+			// the controller reference is not the first ownerReference of the pods
+			a.Kind = "Owned2:ReplicaSet"
+		}
+		b.Kind = a.Kind
 		if rapid.IntRange(0, 2).Draw(t, "ownerctl") == 0 {
 			// the controller itself is in the input next to one of its pods (its own pods come from the template)
 			a.Kind = "ReplicaSet"
